@@ -66,10 +66,18 @@ def cases(tier, seed):
             out.append(Case(f'({cx.coq()}, 0%nat, [(0, 9, [])])', cx.to_json(), False, [{'Context() raised': repr(impl)}], sig=cx.key()))
         else:
             out.append(observe(cx, impl))
+    from . import latfam
+    out += latfam.indirect_context_cases(tier, seed, observe,
+                                         lambda cx, e: Case(f'({cx.coq()}, 0%nat, [(0, 9, [])])', cx.to_json(), False, [{'constructor raised': repr(e)}]))
     return out
 
 
 def case_from_replay(inp):
+    if inp.get('obtained'):
+        from . import latfam
+        c = latfam.indirect_replay(inp, observe)
+        if c is not None:
+            return c
     return observe(gen.Ctx.from_json(inp))
 
 
